@@ -748,6 +748,8 @@ def impl_pool(c):
     sim = Simulation(entities=[tgt, pool] + workers, end_time=Instant.from_seconds(4.0))   # min_connections > 0 re-arms the idle timer forever
     for w, spec in zip(workers, c["workers"]):
         sim.schedule(Event(time=Instant(spec["at"]), event_type="go", target=w))
+    if c.get("warm"):
+        sim.schedule(pool.warmup())
     # waiter id -> client is reconstructed from the trace afterwards (ids are consecutive)
     def fill_waiters():
         n = 0
@@ -818,6 +820,33 @@ def oracle_pool(c, obs):
     if obs["final"]["active"]:
         out.append(dict(clause="held plus available equals capacity (no leaked connection)", final=obs["final"]))
     return out
+
+
+def gen_poolwarm(rng):
+    """Pool warm-up (min_connections close to max_connections, slow set-up) racing with acquirers."""
+    mx = rng.choice([2, 3, 4])
+    c = gen_pool(rng)
+    c.update(max=mx, min=rng.choice([mx - 1, mx, mx]), lat=rng.choice([5_000_000, 10_000_000]), warm=True, idle_timeout=60.0)
+    for w in c["workers"]:
+        w["at"] = rng.choice([0, 1000, 2_000_000, 6_000_000, 12_000_000, 30_000_000])
+    return c
+
+
+def oracle_poolwarm(c, obs):
+    """Warm-up is not in the Coq pool model: the bound, exclusivity and no-leak clauses only."""
+    if obs["verdict"] != "ok":
+        return [dict(clause="waiting consumes no simulated activity", verdict=obs["verdict"])]
+    mx = c["max"]
+    for n, e in enumerate(obs["trace"] + [dict(obs["final"], op=["final"])]):
+        k = e["k"]
+        if len(e["active"]) > mx or k[0] > mx or len(e["active"]) + len(e["idle"]) > mx:
+            return [dict(clause="a connection pool never has more connections than max_connections", mechanism="warmup-overshoots-max",
+                         step=n, active=len(e["active"]), idle=len(e["idle"]), total=k[0], max=mx)]
+        if len(set(e["active"])) != len(e["active"]) or set(e["active"]) & set(e["idle"]):
+            return [dict(clause="a connection is held by at most one client", step=n, active=e["active"], idle=e["idle"])]
+    if obs["final"]["active"]:
+        return [dict(clause="held plus available equals capacity (no leaked connection)", final=obs["final"])]
+    return []
 
 
 # --------------------------------------------------------------------------- concurrency limiters, direct drive
@@ -1420,6 +1449,8 @@ SIM_KINDS = {
                 lambda c, o: any(e["code"] == 0 and e["woken"] for e in o["trace"])),
     "pool": (gen_pool, impl_pool, lambda c, o: "CasePool " + encode_pool(c, o), oracle_pool, None,
              lambda c, o: any(e["code"] == 4 for e in o["trace"])),
+    "poolwarm": (gen_poolwarm, impl_pool, lambda c, o: "CaseOracleOnly", oracle_poolwarm, None,
+                 lambda c, o: o["final"]["k"][2] >= c["min"] and any(e["op"][0] == "start" for e in o["trace"])),
     "bulkhead": (gen_bulkhead, impl_bulkhead, lambda c, o: "CaseBulkhead " + encode_bulkhead(c, o), oracle_bulkhead, None,
                  lambda c, o: any(e["op"][0] == "resp" and e["code"] == 1 for e in o["trace"])),
     "condition": (gen_condition, impl_condition, lambda c, o: "CaseOracleOnly", oracle_condition, None,
@@ -1473,7 +1504,7 @@ def impl_direct(c):
     return DIRECT_KINDS[c.get("family_kind") or c["kind"]][1](c)
 
 
-_sim_family, _ = _combined("sim", SIM_KINDS, dict(threadpool=0.4, barrier=0.8, condition=0.5), True)
+_sim_family, _ = _combined("sim", SIM_KINDS, dict(threadpool=0.4, barrier=0.8, condition=0.5, poolwarm=0.5), True)
 _sim_family.impl = impl_sim
 _direct_family, _ = _combined("direct", DIRECT_KINDS, dict(resource_direct=2, limiter=1.5, preemptible=1), False)
 _direct_family.impl = impl_direct
@@ -1527,7 +1558,7 @@ def run(ctx):
         "arrival order across ALL acquirers is refuted for Resource and Semaphore (c09_resource_arrival_order_refuted, c09_semaphore_arrival_order_refuted; known findings C09-resource-overtake, C09-semaphore-overtake); FIFO among blocked acquirers, no-overtaking for unit/larger amounts, and full no-overtaking for Mutex/RWLock are proved",
         "PARTIAL: a queued ConnectionPool client notices the connection handed to it only at its next poll tick (c09_pool_grant_seen_at_next_poll_partial); DynamicConcurrency bound is relative to the limit in force (c09_limiter_dynamic_partial)",
         "waiting-is-free is proved at the generator level (blocked acquire yields a future, the resume after the wake finishes: *_wait_is_parked) and checked on real runs (events processed == workers + one resume per yield; woken waiter resumes at the instant of the release; frozen-clock watchdog)",
-        "oracle only (exploration, no Coq model): PreemptibleResource (conservation, head waiter never fits, at-most-once), ThreadPool (active workers <= num_workers), Condition (no frozen clock, mutex exclusion, notify counts, every waiter served); not covered: Grant.__del__ warnings, float amounts, ConnectionPool.warmup/close_all",
+        "oracle only (exploration, no Coq model): PreemptibleResource (conservation, head waiter never fits, at-most-once), ThreadPool (active workers <= num_workers), Condition (no frozen clock, mutex exclusion, notify counts, every waiter served); ConnectionPool.warmup racing with acquirers (bound, exclusivity, no leak); not covered: Grant.__del__ warnings, float amounts, ConnectionPool.close_all",
         "ConnectionPool poll count before timeout is computed by the harness with the same float loop as the code and passed to the model as a parameter",
     ]
 
